@@ -4,7 +4,7 @@
    witnesses of the refuted clauses, computed on the instance. *)
 From Coq Require Import Lia.
 From Robsd Require Import Ks.KsInst Ks.VectorProofs Ks.BufferProofs Ks.KsInstProofs Ks.VectorMem
-  Ks.MapProofs Ks.MapIterProofs Ks.MapDup Ks.MapAllocProofs.
+  Ks.MapProofs Ks.MapIterProofs Ks.MapDup Ks.MapAllocProofs Ks.MapMultiDet Ks.MapKeyProofs.
 From RobsdGen Require Import Gen_KsConst.
 Local Open Scope Z_scope.
 
@@ -107,41 +107,147 @@ Proof.
 Qed.
 End ArunOk.
 
-(* report.c / robsd-wait.c insert a key that is already present: the answer of MAP_FIND for that key is the
-   newest duplicate until the next bucket expansion and the oldest one after it, although nothing touches the
-   key in between (replayed on libks: findings/C20_map_duplicate_keys.md) *)
+(* ---- witnesses of the refuted clauses, COMPUTED from the regenerated constants ---------------------------
+   Nothing below names a bucket count, a threshold or an index: the sequences are long enough for a bucket
+   expansion whatever HASH_INITIAL_NUM_BUCKETS / HASH_BKT_CAPACITY_THRESH are (after nb * thresh + 1 distinct
+   keys some chain has reached the threshold, by counting), and the place of the expansion is found by
+   running the model (at compile time, [Eval vm_compute]; the theorems re-derive it). *)
+Definition probe_n : nat := S (N.to_nat (map_nb * map_thresh)).
+Definition other_key (i : nat) : list N := [N.of_nat (i mod 256); N.of_nat (i / 256); 7; 7].
 Definition dup_key : list N := [98; 105; 110; 47; 108; 115].          (* "bin/ls" *)
-Definition dup_others : list mop := map (fun i => MInsert [N.of_nat i; 7; 7; 7] 5) (seq 0 150).
-Definition dup_ops : list mop := [MInsert dup_key 1; MInsert dup_key 2; MFind dup_key] ++ dup_others ++ [MFind dup_key].
+
+Lemma other_key_not_dup i : other_key i <> dup_key.
+Proof. unfold other_key, dup_key. intros E. injection E as _ _ _ _ E. discriminate. Qed.
+
+(* THE input class of the duplicate-key finding, smallest form: a present key is inserted again, removed
+   once, looked up.  map.c answers an element (the first insert's); every answer the specification allows
+   is NULL (MapKeyProofs.kd_removed_absent); the multi-dictionary - what the code does - explains the trace *)
+Definition dup_rm_ops : list mop := [MInsert dup_key 1; MInsert dup_key 2; MRemove dup_key; MFind dup_key].
+
+Theorem dup_removed_key_present :
+  let outs := map fst (fst (mrun_inst dup_rm_ops)) in
+  outs = [MoPtr 0 1; MoPtr 1 2; MoUnit; MoPtr 0 1] /\
+  spec_ok_kdict dup_rm_ops outs = false /\ spec_ok_multi dup_rm_ops outs = true /\
+  no_reinsert dict0 dup_rm_ops = false /\
+  (forall outs', spec_ok_kdict dup_rm_ops outs' = true -> nth 3 outs' MoUB = MoNull).
+Proof.
+  cbv zeta. split; [vm_compute; reflexivity|]. split; [vm_compute; reflexivity|]. split; [vm_compute; reflexivity|].
+  split; [vm_compute; reflexivity|].
+  intros outs' H. pose proof (kd_removed_absent [MInsert dup_key 1; MInsert dup_key 2] [] dup_key outs' (Forall_nil _) H) as Hl.
+  unfold spec_ok_kdict in H. destruct (kdrun [dict0] dup_rm_ops outs') as [|d l] eqn:E; [discriminate|].
+  assert (Hin : In d (kdrun [dict0] dup_rm_ops outs')) by (rewrite E; now left).
+  apply kdrun_in in Hin. destruct Hin as [Hlen _].
+  destruct outs' as [|a [|b [|c [|e [|]]]]]; try discriminate. exact Hl.
+Qed.
+
+(* the lookup of a key nothing touches changes its answer: the key is inserted twice, then looked up after
+   every one of probe_n inserts of other keys.  HASH_FIND answers the newest duplicate until the first bucket
+   expansion reverses the chain, then the oldest (replayed on libks: findings/C20_map_duplicate_keys.md) *)
+Definition dup_probe_ops (n : nat) : list mop :=
+  [MInsert dup_key 1; MInsert dup_key 2; MFind dup_key] ++
+  flat_map (fun i => [MInsert (other_key i) 5; MFind dup_key]) (seq 0 n).
+
+Definition dup_outs : list mout := map fst (fst (mrun_inst (dup_probe_ops probe_n))).
+
+Fixpoint first_idx (p : mout -> bool) (l : list mout) (i : nat) : option nat :=
+  match l with
+  | [] => None
+  | x :: l' => if p x then Some i else first_idx p l' (S i)
+  end.
+
+Lemma first_idx_some p d : forall l i0 i, first_idx p l i0 = Some i -> (i0 <= i)%nat /\ p (nth (i - i0) l d) = true.
+Proof.
+  induction l as [|x l IH]; intros i0 i H; [discriminate|]. cbn [first_idx] in H.
+  destruct (p x) eqn:Ep.
+  - injection H as <-. rewrite Nat.sub_diag. split; [lia|exact Ep].
+  - apply IH in H. destruct H as [Hle Hp]. split; [lia|].
+    replace (i - i0)%nat with (S (i - S i0)) by lia. exact Hp.
+Qed.
+
+Lemma nth_skipn_add {A} (d : A) : forall k l n, nth n (skipn k l) d = nth (k + n) l d.
+Proof.
+  induction k as [|k IH]; intros l n; [reflexivity|]. destruct l as [|x l]; [destruct n; reflexivity|]. apply IH.
+Qed.
+
+(* the first answer "entry 0, value 1" after the three initial operations *)
+Definition is_first_entry (o : mout) : bool := mout_eqb o (MoPtr 0 1).
+Lemma is_first_entry_eq o : is_first_entry o = true -> o = MoPtr 0 1.
+Proof. unfold is_first_entry. apply mout_eqb_eq. Qed.
+Definition dup_flip_at : option nat := Eval vm_compute in first_idx is_first_entry (skipn 3 dup_outs) 3.
 
 Theorem dup_lookup_flips :
-  let outs := map fst (fst (mrun_inst dup_ops)) in
-  nth 2 outs MoUB = MoPtr 1 2 /\ nth 153 outs MoUB = MoPtr 0 1 /\
-  (forall op, In op dup_others -> exists k v, op = MInsert k v /\ k <> dup_key) /\
-  spec_ok_multi dup_ops outs = true /\ disciplined dict0 dup_ops = false.
+  nth 2 dup_outs MoUB = MoPtr 1 2 /\
+  (exists i, (2 < i)%nat /\ nth i dup_outs MoUB = MoPtr 0 1) /\
+  (forall i, other_key i <> dup_key) /\
+  spec_ok_multi (dup_probe_ops probe_n) dup_outs = true /\
+  spec_ok_kdict (dup_probe_ops probe_n) dup_outs = false /\ no_reinsert dict0 (dup_probe_ops probe_n) = false.
 Proof.
-  cbv zeta. split; [vm_compute; reflexivity|]. split; [vm_compute; reflexivity|]. split.
-  - intros op Hin. unfold dup_others in Hin. apply in_map_iff in Hin. destruct Hin as (i & <- & _).
-    eexists _, _. split; [reflexivity|]. unfold dup_key. intros E. injection E as _ E1. discriminate.
-  - split; vm_compute; reflexivity.
+  split; [vm_compute; reflexivity|]. split.
+  - assert (E : first_idx is_first_entry (skipn 3 dup_outs) 3 = dup_flip_at) by (vm_compute; reflexivity).
+    (* no conversion may force the kernel to evaluate the run lazily: the computed index stays abstract *)
+    destruct dup_flip_at as [i|] eqn:Ed; [|vm_compute in Ed; discriminate Ed]. clear Ed.
+    apply (first_idx_some _ MoUB) in E. destruct E as [Hle Hb].
+    rewrite nth_skipn_add in Hb. exists (3 + (i - 3))%nat. split; [lia|]. exact (is_first_entry_eq _ Hb).
+  - split; [exact other_key_not_dup|]. split; [vm_compute; reflexivity|]. split; vm_compute; reflexivity.
 Qed.
 
 (* HASH_EXPAND_BUCKETS cannot allocate: MAP_INSERT answers NULL, yet the element is in the map - the next
-   lookup of the key finds it (with the zero value), num_items counts it *)
-Definition linked_ops : list mop :=
-  map (fun i => MInsert [N.of_nat i; 7; 7; 7] 5) (seq 0 149) ++ [MFind [148; 7; 7; 7]].
+   lookup of the key finds it (with the zero value), num_items counts it.  Distinct keys are inserted; the
+   calloc that allocates the first larger bucket array is found by scanning the allocator calls of the run
+   WITHOUT failures ([first_expand]: its calloc number c and the operation i it belongs to); then that
+   calloc is made to fail *)
+Definition linked_keys (n : nat) : list mop := map (fun i => MInsert (other_key i) 5) (seq 0 n).
+
+Fixpoint scan_expand (evs : list aev) (c : N) : N + N :=
+  match evs with
+  | [] => inl c
+  | ACalloc (BBkts nb) :: evs' => if nb =? map_nb then scan_expand evs' (c + 1) else inr c
+  | ACalloc _ :: evs' | ACallocFail _ :: evs' => scan_expand evs' (c + 1)
+  | AFree _ :: evs' => scan_expand evs' c
+  end.
+
+Fixpoint first_expand (tr : list (aout * option shape * list aev)) (c : N) (i : nat) : option (N * nat) :=
+  match tr with
+  | [] => None
+  | (_, _, evs) :: tr' =>
+      match scan_expand evs c with
+      | inr c' => Some (c', i)
+      | inl c' => first_expand tr' c' (S i)
+      end
+  end.
+
+Definition nofail_trace : list (aout * option shape * list aev) := fst (fst (fst (arun_inst [] (linked_keys probe_n)))).
+Definition first_expansion : option (N * nat) := Eval vm_compute in first_expand nofail_trace 0 0.
 
 Theorem insert_null_but_linked :
-  let tr := fst (fst (fst (arun_inst [151] linked_ops))) in
-  fst (fst (nth 148 tr (AOk MoUB, None, []))) = ANullLinked 148 /\
-  snd (nth 148 tr (AOk MoUB, None, [])) = [ACalloc (BElt 148); ACallocFail (BBkts 64)] /\
-  fst (fst (nth 149 tr (AOk MoUB, None, []))) = AOk (MoPtr 148 0) /\
-  option_map s_items (snd (fst (nth 148 tr (AOk MoUB, None, [])))) = Some 149.
-Proof. vm_compute. repeat split; reflexivity. Qed.
+  exists c i, first_expand nofail_trace 0 0 = Some (c, i) /\
+    let ops := linked_keys (S i) ++ [MFind (other_key i)] in
+    let tr := fst (fst (fst (arun_inst [c] ops))) in
+    fst (fst (nth i tr (AOk MoUB, None, []))) = ANullLinked (N.of_nat i) /\
+    snd (nth i tr (AOk MoUB, None, [])) = [ACalloc (BElt (N.of_nat i)); ACallocFail (BBkts (2 * map_nb))] /\
+    fst (fst (nth (S i) tr (AOk MoUB, None, []))) = AOk (MoPtr (N.of_nat i) 0) /\
+    option_map s_items (snd (fst (nth i tr (AOk MoUB, None, [])))) = Some (N.of_nat (S i)).
+Proof.
+  assert (E : first_expand nofail_trace 0 0 = first_expansion) by (vm_compute; reflexivity).
+  unfold first_expansion in E. eexists. eexists. split; [exact E|].
+  vm_compute. repeat split; reflexivity.
+Qed.
 
 (* the first insert cannot allocate its table: NULL, the map stays empty, the element block is never freed *)
 Theorem insert_leaks_element :
   let '(tr, st, fr, lk) := arun_inst [1] [MInsert [1] 5; MInsert [1] 6] in
   map (fun x => fst (fst x)) tr = [ANullLeak 0; AOk (MoPtr 1 6)] /\ lk = [0] /\
-  fr = [AFree (BBkts 32); AFree BTbl; AFree (BElt 1)].
+  fr = [AFree (BBkts map_nb); AFree BTbl; AFree (BElt 1)].
 Proof. vm_compute. repeat split; reflexivity. Qed.
+
+(* ---- the oracle of THE specification accepts the executed model on every sequence that inserts no present key,
+        with exactly the deterministic dictionary's answers ---------------------------------------------------- *)
+Theorem mrun_inst_kdict_ok ops :
+  no_reinsert dict0 ops = true ->
+  map fst (fst (mrun_inst ops)) = snd (drun dict0 ops) /\ spec_ok_kdict ops (map fst (fst (mrun_inst ops))) = true.
+Proof.
+  intros Hn. unfold mrun_inst.
+  pose proof (mrun_nr hash_jen map_nb map_log2 map_thresh map_nb_pow2 ops Hn) as [H _].
+  destruct (mrun hash_jen map_nb map_log2 map_thresh map0 ops) as [m tr]. cbn [fst snd] in *.
+  split; [exact H|]. apply (spec_ok_kdict_partial ops _ Hn). exact H.
+Qed.
